@@ -142,6 +142,24 @@ def r2(ctx, F):
             ps = param_slots(F, b, fl.origins(st['args'][0]))
             dst_ok = ps is not None and len(ps) == 1 and ps == rdst
             after = all(fl.guarded_by(sb, rb, 'Ok') for rb, _ in renames) and bool(renames)
+            if not renames:
+                # the staging + rename runs in a task / closure created here (`spawn_blocking(move || stage_and_publish(..))`):
+                # same obligations, the rename's destination resolved through the captures and "after" = behind the Ok edge of
+                # the call the closure was handed to
+                for nb in F.nested(b.path):
+                    if nb.path == b.path:
+                        continue
+                    nfl = flow_of(nb)
+                    for rb_, rt_ in nfl.calls(lambda c: c.endswith('fs::rename')):
+                        rdst |= (param_slots(F, nb, nfl.origins(rt_['args'][1])) or set())
+                        top_clo = nb
+                        while top_clo.parent and top_clo.parent != b.path and F.body(top_clo.parent) is not None:
+                            top_clo = F.body(top_clo.parent)
+                        for cb_, ct_ in fl.calls(lambda c: True):
+                            if any(o.kind == 'agg' and o.key == top_clo.path for a_ in ct_['args'] if a_['k'] != 'const' for o in fl.origins(a_)):
+                                oc_ = fl.outcomes(cb_)
+                                after = bool(oc_.get('Ok')) and fl.cfg.edges_guard(oc_['Ok'], sb)
+                dst_ok = ps is not None and len(ps) == 1 and ps == rdst
             ctx.check(pure and dst_ok and after, 'C14.R2', '%s:set_local_mtime(dst, t)' % fn.split('::')[-1], 'time = one parameter (or its .mtime) unchanged, on the delivered file, after the rename',
                       '%s sets a modified value / on another path / before the rename (pure=%s, dst=%s, after rename=%s)' % (fn, pure, dst_ok, after), term_loc(b, sb))
     # (b) at the call sites: that parameter is src_meta.get(rel) of the loop path, with the `.mtime` projection on exactly one side
